@@ -67,8 +67,12 @@ def cases(rng, tier):
             for ln in G.BOUNDARY_LENGTHS + G.BIG_LENGTHS[:2]:
                 pw = "secret" if any(c["f"] == "AES" for c in ch) else None
                 mem = [{"name": "m%d" % ln, "content": G.content_recipe(rng, length=ln)}]
+                block, chunk = rng.choice(BLOCKS), rng.choice(CHUNKS)
+                if ln > 150000:  # tiny blocks/chunks over a megabyte only cost time (minutes per case)
+                    block = None if not block or block < 200 else block
+                    chunk = None if not chunk or chunk < 100 else chunk
                 out.append(dict(members=mem, chain=ch, password=pw, header="encoded", target="bytesio", entry="writestr",
-                                block=rng.choice(BLOCKS), chunk=rng.choice(CHUNKS), volume=None))
+                                block=block, chunk=chunk, volume=None))
     return out
 
 
@@ -186,7 +190,7 @@ def run_case(case):
     cell = _cell(case, True)
     sample = {"chain": G.chain_label(case["chain"]), "header": case["header"], "target": case["target"], "entry": case["entry"],
               "block": case["block"], "chunk": case["chunk"], "members": [(n[:30], len(b)) for n, b in members][:4], "archive_bytes": len(data)}
-    if viol and any(c["f"] == "PPMD" for c in case["chain"]) and K.pyppmd_faulty(case["chain"], b"".join(b for _, b in members)):
+    if viol and any(c["f"] == "PPMD" for c in case["chain"]) and K.pyppmd_faulty(case["chain"], [b for _, b in members], case["block"]):
         # the PPMd library alone cannot round-trip this stream: one mechanism, whatever the symptom
         viol = [{"key": "codec-library/pyppmd-roundtrip", "what": "pyppmd %s cannot round-trip this input by itself (symptom here: %s)" % (
             [c for c in case["chain"] if c["f"] == "PPMD"], viol[0]["what"][:150])}]
